@@ -10,7 +10,7 @@ use crate::sut::*;
 use crate::worker::*;
 use serde_json::{json, Value};
 
-pub const FAULTS: [&str; 15] = [
+pub const FAULTS: [&str; 16] = [
     "absent",
     "pass",
     "slow_pass",
@@ -26,6 +26,7 @@ pub const FAULTS: [&str; 15] = [
     "partial_out_kill",
     "partial_out_fail",
     "partial_out_term",
+    "stub_ok_no_read",
 ];
 
 pub const WATCHDOG_S: f64 = 20.0;
@@ -75,7 +76,9 @@ pub fn shader_for(ch: &mut Ch, large: bool) -> String {
     if large {
         p.host_structs = (10, 14);
         p.members = (6, 10);
-        p.groups = (4, 4);
+        // the formatter's input (the unformatted token string) must exceed the 64 KiB pipe capacity
+        // with a margin: 7 groups of 24..30 bindings give 100..130 KiB
+        p.groups = (7, 7);
         p.bindings = (24, 30);
         p.entries = [(1, 2), (1, 2), (1, 2)];
         p.funcs = (1, 2);
@@ -110,18 +113,30 @@ pub fn judge(sut: &dyn Sut, c: &Case, env: &Env, stats: &mut Stats) -> Result<()
             return Ok(());
         }
     }
+    // what the generator writes to the formatter is the unformatted token string, shorter than the
+    // pretty-printed reference; the same tokens printed by proc-macro2 have (about) that length
+    crate::outread::reset_span_map();
+    let written_len = reference.parse::<proc_macro2::TokenStream>().map(|t| t.to_string().len()).unwrap_or(0);
+    // default pipe capacity is 64 KiB
+    if std::env::var("VERIF_DEBUG_C19").is_ok() { eprintln!("C19 debug: reference {} written {}", reference.len(), written_len); }
+    let large = written_len > 80 * 1024;
+    if c.fault == "stub_ok_no_read" && !large {
+        // a formatter that exits 0 with plausible output without reading: below the pipe buffer the
+        // write succeeds and nothing distinguishes it from a working formatter (not decidable)
+        stats.skip("stub_ok_no_read_below_pipe_buffer");
+        return Ok(());
+    }
     let mut o = c.opts;
     o.rustfmt = true;
     let req = gen_request(&c.wgsl, None, &o);
     let r = run_child(&ChildSpec { cmd: "gen", request: &req, env_clear: true, env: child_env(&c.fault, env), cwd: Some(std::path::Path::new("/")), cpu_limit_s: 60, wall_limit_s: WATCHDOG_S });
     stats.evaluations += 1;
-    let large = reference.len() > 90_000;
     stats.class(&format!("fault:{}", c.fault));
-    stats.class(if large { "output>90KB" } else { "output<=90KB" });
+    stats.class(if large { "formatter_input>80KiB" } else if written_len > 64 * 1024 { "formatter_input_64..80KiB" } else { "formatter_input<=64KiB" });
     if !(c.fault == "pass") || large {
         stats.nontrivial_case(hash_str(&format!("{}|{}|{}", c.wgsl, c.fault, c.opts.short())));
     }
-    let ctx = || format!("fault={} unformatted_output_bytes={} opts={}\n--- source ---\n{}", c.fault, reference.len(), c.opts.short(), c.wgsl);
+    let ctx = || format!("fault={} unformatted_output_bytes={} formatter_input_bytes~{} opts={}\n--- source ---\n{}", c.fault, reference.len(), written_len, c.opts.short(), c.wgsl);
     if r.killed_by_watchdog {
         let cpu = r.cpu_s_at_end.unwrap_or(0.0);
         if cpu < 1.0 {
@@ -182,7 +197,7 @@ pub fn run(sut: &dyn Sut, tier: Tier) -> ! {
     crate::preflight::quiet_panics();
     let mut run = Run::new("C19", tier);
     run.level = "fault_enumeration";
-    run.rule = format!("faults {FAULTS:?} x two output size classes (below / well above the 64 KiB pipe buffer) x generated shaders x option sets; every fault additionally repeated on one small and one large shader to sample the exit-versus-write race. The generator runs in a child whose PATH contains only the stub formatter; its result must be Ok and token-identical (trailing-comma / block-semicolon normalisation only) to the in-process rustfmt:false output, and parse as a Rust file. Non-trivial = fault other than plain pass-through, or output above 90 KB; distinct by (source, fault, options).");
+    run.rule = format!("faults {FAULTS:?} x two output size classes (below / well above the 64 KiB pipe buffer) x generated shaders x option sets; every fault additionally repeated on one small and one large shader to sample the exit-versus-write race. The generator runs in a child whose PATH contains only the stub formatter; its result must be Ok and token-identical (trailing-comma / block-semicolon normalisation only) to the in-process rustfmt:false output, and parse as a Rust file. Non-trivial = fault other than plain pass-through, or formatter input above 80 KiB; distinct by (source, fault, options).");
     run.assumptions = vec![
         "token identity is judged with proc-macro2 after dropping trailing commas before closing delimiters and semicolons directly after a closing brace".into(),
         format!("a hang is a worker that is still blocked after {WATCHDOG_S}s wall clock having used < 1s CPU; any other watchdog event is inconclusive (exit 2)"),
